@@ -121,6 +121,8 @@ def check_layout(c):
     for (r0, lamb, wk) in c['configs']:
         Y0 = space.tt(shape, [1] + [r0] * (d - 1) + [1], 'gen', seed, tag=41)
         w = None if not wk else np.array([(1.0, 0.5, 2.0, 0.25, 4.0, 1.0)[j % 6] for j in range(m)])
+        if wk == 2:        # every sample of slice 0 of mode 1 (and the first sample) has weight exactly zero: the minimiser of that slice is 0
+            w = np.array([0.0 if (p[1] == 0 or j == 0) else w[j] for j, p in enumerate(pts)])
         cfg = dict(shape=shape, points=c['points'], N=N, configs=[[r0, lamb, wk]], seed=seed, perm_mode=c.get('perm_mode'))
         tags = ['single-sample-slice' if single else 'multi', 'r0=%d' % r0]
         res.ev()
@@ -193,7 +195,8 @@ def check_layout(c):
         # changes above 1e-4 are judged, to 1e-3 relative)
         res.check(deltas[-1] < 1e-4 or abs(info.get('e', -9) - deltas[-1]) <= 1e-3 * deltas[-1], 'info.e', cfg,
                   lambda: "info['e']=%r, relative change of the last sweep %r" % (info.get('e'), deltas[-1]), tags)
-        for e_thr in sorted({f * dl for dl in deltas for f in (1.2, 1 / 1.2) if dl > 1e-4}):
+        defined = all(float(np.linalg.norm(ref.dense(S))) > 0 for S in states[:-1])       # the relative change against a zero tensor is undefined
+        for e_thr in (sorted({f * dl for dl in deltas for f in (1.2, 1 / 1.2) if dl > 1e-4}) if defined else []):
             if any(abs(dl / e_thr - 1) < 0.1 for dl in deltas):
                 continue
             res.ev()
@@ -287,7 +290,8 @@ def check_skip(c):
 # functional version
 
 def _cheb(x, n):
-    return np.polynomial.chebyshev.chebvander(np.asarray(x, dtype=float), n - 1)      # (m, n)
+    # coordinates outside the box are clipped onto it, as the library's own evaluator (poi_scale) does: that basis defines the objective
+    return np.polynomial.chebyshev.chebvander(np.clip(np.asarray(x, dtype=float), -1.0, 1.0), n - 1)      # (m, n)
 
 
 def fobjective(A, X, y, lamb):
@@ -348,6 +352,8 @@ def check_func(c):
     N = c['N']
     if c['where'] == 'nodes':
         X = np.array([[np.cos(np.pi * p[k] / max(shape[k] - 1, 1)) for k in range(d)] for p in pts])
+    elif c['where'] == 'outside':          # some coordinates beyond the box on either side
+        X = np.array([[-1.25 + 2.5 * p[k] / max(shape[k] - 1, 1) + 0.013 * k for k in range(d)] for p in pts])
     else:
         X = np.array([[-0.83 + 1.61 * p[k] / max(shape[k] - 1, 1) + 0.013 * k for k in range(d)] for p in pts])
     perms = sorted(set(itertools.permutations(range(m))))
@@ -461,10 +467,10 @@ def strata(tier, seed):
     if tier == 'quick':
         plan = [([2, 2], 4), ([2, 3], 4), ([2, 2, 2], 3), ([3, 2, 2], 3)]
         cfgs_full = [[2, 1e-3, 0], [1, 0.1, 1]]
-        cfgs_rest = [[3, 10.0, 0], [2, 0.1, 1]]
+        cfgs_rest = [[3, 10.0, 0], [2, 0.1, 1], [2, 1e-3, 2]]
     else:
         plan = [([2, 2], 6), ([2, 3], 5), ([3, 3], 4), ([2, 2, 2], 4), ([3, 2, 2], 4), ([2, 3, 2], 4), ([2, 2, 2, 2], 3)]
-        cfgs_full = [[r0, lamb, wk] for r0 in (1, 2, 3) for lamb in (1e-3, 0.1, 10.0) for wk in (0, 1)]
+        cfgs_full = [[r0, lamb, wk] for r0 in (1, 2, 3) for lamb in (1e-3, 0.1, 10.0) for wk in (0, 1, 2)]
         cfgs_rest = []
     lay = []
     for shape, M in plan:
@@ -481,7 +487,7 @@ def strata(tier, seed):
         for pts in sets:
             cov = all(len({p[k] for p in pts}) == shape[k] for k in range(len(shape)))
             if cov:
-                lay.append(dict(shape=shape, points=sorted(pts), N=3, configs=[[2, 1e-3, 0], [3, 0.1, 1]], perms=True, perm_mode='few', seed=seed))
+                lay.append(dict(shape=shape, points=sorted(pts), N=3, configs=[[2, 1e-3, 0], [3, 0.1, 1], [2, 1e-3, 2]], perms=True, perm_mode='few', seed=seed))
     yield Stratum('als-layouts', lay, 'layout', size=len(lay), chunk=4,
                   bounds={'grids': [p[0] for p in plan], 'multiset size': [p[1] for p in plan], 'sweeps': 3,
                           'orderings': 'all distinct permutations'})
@@ -500,7 +506,7 @@ def strata(tier, seed):
     fplan = [([2, 2], 3), ([2, 2, 2], 3)] if tier == 'quick' else [([2, 2], 4), ([3, 2], 4), ([2, 2, 2], 4), ([3, 2, 2], 3)]
     for shape, M in fplan:
         for ms in multisets(shape, M):
-            for where in ('nodes', 'off'):
+            for where in ('nodes', 'off', 'outside'):
                 for n in ((2, 3) if tier == 'quick' else (2, 3, 4)):
                     fl.append(dict(shape=shape, points=ms, where=where, n=n, N=3,
                                    configs=[[1, 1e-3], [2, 0.1]] if tier == 'quick' else
